@@ -672,6 +672,41 @@ func c10Scenarios(tier string) []*world.Scenario {
 				[]rd{{cmd, []string{a0}, ""}, {"set", []string{a0}, "w"}, {"set", []string{a1}, "u"}})
 		}
 	}
+	// a slot in migration: node A answers -ASK for the key, node B (stateful) serves it after ASKING: a pipelined SET k v;
+	// GET k must read the value written (replies on B's connection stay matched to their requests)
+	for _, shape := range []string{"set-get", "set-set-get-get"} {
+		k := a0
+		var reqs []Req
+		var rds []rd
+		switch shape {
+		case "set-get":
+			reqs = []Req{set(k, "v1"), get(k, "v1")}
+			rds = []rd{{"set", []string{k}, "v1"}, {"get", []string{k}, ""}}
+		default:
+			// (every request of a pipeline is distinguishable by command + key + value: the order oracle matches on those)
+			reqs = []Req{set(k, "v1"), set(a1, "w"), get(k, "v1"), get(a1, "w")}
+			rds = []rd{{"set", []string{k}, "v1"}, {"set", []string{a1}, "w"}, {"get", []string{k}, ""}, {"get", []string{a1}, ""}}
+		}
+		sc := c10Scenario("ask-migrating/"+shape, [][]Req{reqs}, [][]rd{rds}, 2)
+		sc.Family = "ask-migrating"
+		slot := world.SpecSlot([]byte(k))
+		sc.Reply = func(w *world.World, bc *world.BConn, args [][]byte) ([]byte, int) {
+			if len(args) > 1 && string(args[1]) == k {
+				if bc.Addr == AddrA {
+					return askTo(slot, AddrB), 0
+				}
+				if bc.Addr == AddrB {
+					n := len(bc.Log)
+					if !(n > 0 && world.Lower(bc.Log[n-1].Args[0]) == "asking") {
+						return movedTo(slot, AddrA), 0
+					}
+				}
+			}
+			return nil, 0
+		}
+		// order is judged at node B (where the requests are served); the generic per-node oracle covers it
+		out = append(out, sc)
+	}
 	// scripts and other single-key writes pipelined in front of a write to the same key, on nodes that answer -MOVED for
 	// slots they do not own (a request routed by the wrong argument detours and arrives late)
 	{
